@@ -143,7 +143,7 @@ def run(tier="quick", seed=0):
     for v in (1, 2, 3):
         pr.model_check("MCTauTables", workers=2, heap="4g", env={"TABLE_FILE": tables.export_tau(v)}, timeout=900)
     ev = []
-    for r in range(4 if thorough else 1):
+    for r in range(10 if thorough else 1):
         ev += events(seed + r, 120 if thorough else 40)
     # chunk on Write boundaries: keep each Write with its Reads
     groups, cur = [], []
